@@ -363,7 +363,8 @@ def shard_purity(arg):
     names = arg
     for name in names:
         for kind in ("path", "traj"):
-            for mode in ("se3", "quat", "se3+read", "quat+read"):
+            for mode in ("se3", "quat", "se3+read", "quat+read", "quatF",
+                         "quatF+read"):
                 msgs = run_purity(name, kind, mode)
                 if msgs is None:
                     continue
